@@ -42,12 +42,12 @@ BaseTris ==
              [ar |-> 3, id |-> 3, data |-> <<P(1, 0, 0), P(0, 1, 0), P(0, 0, 1), P(1, 1, 0), P(0, 1, 1), P(1, 0, 1)>>]>>,
            <<>>)
 
-\* point cloud with permuted indices, a scalar and a 4-vector
+\* point cloud with permuted indices (four points: not a multiple of three), a scalar and a 4-vector
 BasePts ==
-    MkMesh("point", <<2, 0, 1>>,
-           <<[ar |-> 1, id |-> 6, data |-> <<<<Q>>, <<5 * Q>>, <<3 * Q>>>>],
-             [ar |-> 3, id |-> 1, data |-> <<P(0, 0, 0), P(4, 0, 0), P(2, 2, 2)>>],
-             [ar |-> 4, id |-> 10, data |-> <<<<Q, 0, 0, 0>>, <<0, Q, 0, 0>>, <<0, 0, Q, 0>>>>]>>,
+    MkMesh("point", <<2, 0, 1, 3>>,
+           <<[ar |-> 1, id |-> 6, data |-> <<<<Q>>, <<5 * Q>>, <<3 * Q>>, <<2 * Q>>>>],
+             [ar |-> 3, id |-> 1, data |-> <<P(0, 0, 0), P(4, 0, 0), P(2, 2, 2), P(1, 3, 0)>>],
+             [ar |-> 4, id |-> 10, data |-> <<<<Q, 0, 0, 0>>, <<0, Q, 0, 0>>, <<0, 0, Q, 0>>, <<0, 0, 0, Q>>>>]>>,
            <<>>)
 
 BaseEmpty == MkMesh("triangle", <<>>, <<>>, <<>>)
@@ -77,7 +77,7 @@ Candidates ==
     \cup Unary("SetIndices", [idx |-> <<1, 0, 2>>]) \cup Unary("SetIndices", [idx |-> <<>>])
     \cup Unary("SetMaterial", [m |-> 3])
     \cup Unary("SetMaterials", [mats |-> <<[n |-> 1, m |-> 2], [n |-> 1, m |-> 1]>>])
-    \cup Unary("SetAttr", [ar |-> 1, id |-> 13, data |-> <<<<Q>>, <<2 * Q>>, <<3 * Q>>>>])
+    \cup Unary("SetAttr", [ar |-> 1, id |-> 13, data |-> <<<<Q>>, <<2 * Q>>, <<3 * Q>>, <<4 * Q>>>>])
     \cup Unary("ModifyAttr", [ar |-> 3, id |-> 1, fn |-> "addidx", k |-> 0])
     \cup Unary("ModifyAttr", [ar |-> 1, id |-> 6, fn |-> "neg", k |-> 0])
     \cup Binary("CopyAttr", [ar |-> 3, id |-> 3])
@@ -111,7 +111,7 @@ Candidates ==
     \cup {[op |-> "Prim", dst |-> d, src |-> <<>>, args |-> [gen |-> c[1], p |-> c[2]]] :
             d \in NewSlots, c \in {<<3, <<2, 2, 2, 0>>>>, <<3, <<0 - 4, 6, 8, 1>>>>, <<4, <<2, 4, 6, 0>>>>, <<1, <<2, 2, 3, 0>>>>}}
     \* windows of one longer array handed to two meshes
-    \cup Unary("SetAttrWindow", [ar |-> 1, id |-> 13, n |-> 3, data |-> <<<<Q>>, <<2 * Q>>, <<3 * Q>>, <<4 * Q>>, <<5 * Q>>, <<6 * Q>>>>])
+    \cup Unary("SetAttrWindow", [ar |-> 1, id |-> 13, n |-> 4, data |-> <<<<Q>>, <<2 * Q>>, <<3 * Q>>, <<4 * Q>>, <<5 * Q>>, <<6 * Q>>>>])
     \cup Unary("SetAttrWindow", [ar |-> 1, id |-> 13, n |-> 6, data |-> <<<<Q>>, <<2 * Q>>, <<3 * Q>>, <<4 * Q>>, <<5 * Q>>, <<6 * Q>>>>])
     \cup Unary("SetAttrWindow", [ar |-> 1, id |-> 13, n |-> 5, data |-> <<<<Q>>, <<2 * Q>>, <<3 * Q>>, <<4 * Q>>, <<5 * Q>>, <<6 * Q>>>>])
     \* operations without a reference value in the model (slice by plane, scale along normal, 2D normalise/scale,
